@@ -101,7 +101,9 @@ Definition wt_remove (force : bool) (p : path) (s : repo) : option repo :=
            end
   end.
 
-(* git worktree prune: drops EVERY unlocked registration whose directory is gone — also the user's own *)
+(* git worktree prune: drops EVERY unlocked registration whose directory is gone — also the user's own.
+   tmp_worktree no longer calls it (repaired finding F3); it stays in the git model for the oracle correspondence
+   and for the statement that it never was needed (prune_is_noop_in_cleanup). *)
 Definition prunable (s : repo) (r : reg) : bool := negb (rlocked r) && negb (dir_exists (rpath r) s).
 Definition wt_prune (s : repo) : repo := set_regs s (filter (fun r => negb (prunable s r)) (regs s)).
 
@@ -148,11 +150,10 @@ Record faults := mkFaults {
   f_mkdtemp : bool;      (* TemporaryDirectory() raises OSError *)
   f_add : fault;
   f_remove : fault;
-  f_prune : fault;
   f_branchD : fault
 }.
 
-Definition no_faults := mkFaults NoFault false NoFault NoFault NoFault NoFault.
+Definition no_faults := mkFaults NoFault false NoFault NoFault NoFault.
 
 (* ------------------------------------------------------------------ _normalize (ASCII) *)
 
@@ -181,7 +182,11 @@ Fixpoint strip_last_dash (s : string) : string :=
 
 Definition normalize (s : string) : string := strip_last_dash (norm_aux true s).
 
-Definition tmp_branch (ref : string) : string := "griffe-" ++ normalize ref.
+(* `_normalize(ref) or "ref"`: the name of the checkout directory inside the temporary directory, never empty *)
+Definition checkout_name (ref : string) : string :=
+  if String.eqb (normalize ref) "" then "ref" else normalize ref.
+
+Definition tmp_branch (ref : string) : string := "griffe-" ++ checkout_name ref.
 
 (* ------------------------------------------------------------------ tmp_worktree, load_git *)
 
@@ -191,15 +196,10 @@ Definition cleanup (force : bool) (F : faults) (b : string) (p : path) (s : repo
   match g1 with
   | Exn e => (s1, Some e)
   | _ =>
-    let (s2, g2) := git_call (f_prune F) (fun x => Some (wt_prune x)) s1 in
-    match g2 with
-    | Exn e => (s2, Some e)
-    | _ =>
-      let (s3, g3) := git_call (f_branchD F) (branch_D b) s2 in
-      match g3 with
-      | Exn e => (s3, Some e)
-      | _ => (s3, None)
-      end
+    let (s3, g3) := git_call (f_branchD F) (branch_D b) s1 in
+    match g3 with
+    | Exn e => (s3, Some e)
+    | _ => (s3, None)
     end
   end.
 
@@ -354,7 +354,6 @@ Definition is_nofault (f : fault) : bool := match f with NoFault => true | _ => 
 (* the cleanup steps do their job: remove and branch -D take effect, and nothing raises before branch -D has run *)
 Definition cleanup_benign (F : faults) : bool :=
   match f_remove F with NoFault | FailAfter => true | _ => false end
-  && match f_prune F with NoFault | FailBefore | FailAfter => true | _ => false end
   && match f_branchD F with NoFault | FailAfter | RaiseAfter _ => true | _ => false end.
 
 Definition reaches_add (isrepo : bool) (F : faults) : bool := is_nofault (f_assert F) && isrepo && negb (f_mkdtemp F).
@@ -370,13 +369,6 @@ Definition reaches_cleanup (isrepo : bool) (s : repo) (ref : string) (F : faults
 (* excluded by hypothesis: a cleanup step itself fails or is interrupted *)
 Definition excluded_cleanup_fault (isrepo : bool) (s : repo) (ref : string) (F : faults) : bool :=
   reaches_cleanup isrepo s ref F && negb (cleanup_benign F).
-
-(* KnownGap F3: `worktree prune` runs while the user's repository has a prunable registration of its own *)
-Definition prune_runs (F : faults) : bool :=
-  match f_remove F with RaiseBefore _ | RaiseAfter _ => false | _ => true end
-  && match f_prune F with NoFault | FailAfter | RaiseAfter _ => true | _ => false end.
-Definition gap_prune_foreign (isrepo : bool) (s : repo) (ref : string) (F : faults) : bool :=
-  reaches_cleanup isrepo s ref F && prune_runs F && negb (no_prunable s).
 
 Definition benign (isrepo : bool) (s : repo) (ref : string) (F : faults) : bool :=
   negb (gap_add_after isrepo s ref F) && negb (excluded_cleanup_fault isrepo s ref F).
@@ -421,9 +413,9 @@ Fixpoint location_abs (parts : list string) : option (list string) :=
 Definition location (is_absolute : bool) (parts : list string) : list string :=
   if is_absolute then match location_abs parts with Some l => l | None => parts end else parts.
 
-(* where tmp_worktree puts the checkout: os.path.join(tmp_dir, normref) — the temp dir itself when normref is empty *)
-Definition checkout_parts (root : list string) (tmpname normref : string) : list string :=
-  if String.eqb normref "" then root ++ [tmpname] else root ++ [tmpname; normref].
+(* where tmp_worktree puts the checkout: os.path.join(tmp_dir, normref), normref = checkout_name ref *)
+Definition checkout_parts (root : list string) (tmpname dirname : string) : list string :=
+  root ++ [tmpname; dirname].
 
 (* ------------------------------------------------------------------ lines collection *)
 
@@ -504,9 +496,9 @@ Definition dec_fault (x : sexp) : option fault :=
 
 Definition dec_faults (x : sexp) : option faults :=
   match x with
-  | SList [a; m; d; r; p; b] =>
+  | SList [a; m; d; r; b] =>
       do a' <- dec_fault a; do m' <- as_bool m; do d' <- dec_fault d; do r' <- dec_fault r;
-      do p' <- dec_fault p; do b' <- dec_fault b; Some (mkFaults a' m' d' r' p' b')
+      do b' <- dec_fault b; Some (mkFaults a' m' d' r' b')
   | _ => None
   end.
 
@@ -535,7 +527,6 @@ Definition enc_result (r : result) : sexp :=
 Definition classify (isrepo : bool) (s : repo) (ref : string) (F : faults) : string :=
   if gap_add_after isrepo s ref F then "gap-add-after"
   else if excluded_cleanup_fault isrepo s ref F then "excluded-cleanup-fault"
-  else if gap_prune_foreign isrepo s ref F then "gap-prune-foreign"
   else "benign".
 
 Inductive gstep :=
@@ -595,7 +586,7 @@ Definition run_C20 (x : sexp) : sexp :=
               do p' <- as_nat p; do tree' <- dec_tree tree; do evs' <- as_list_of dec_event evs;
               let (s', r) := load_git force' isrepo' F' p' ref tree' evs' s in
               Some (SList [enc_repo s'; enc_result r; SStr (classify isrepo' s ref F');
-                           of_bool (wf s); of_bool (fresh p' s); of_bool (no_prunable s)]))
+                           of_bool (wf s); of_bool (fresh p' s)]))
   | SList [SStr "check"; force; isrepo; st; args; tree; breaking] =>
       or_bad (do force' <- as_bool force; do isrepo' <- as_bool isrepo; do s <- dec_repo st; do a <- dec_check args;
               do tree' <- dec_tree tree; do br <- as_list_of dec_pair_nn breaking;
@@ -604,6 +595,7 @@ Definition run_C20 (x : sexp) : sexp :=
   | SList [SStr "steps"; st; gs] =>
       or_bad (do s <- dec_repo st; do gs' <- as_list_of dec_gstep gs; Some (SList (run_gsteps gs' s)))
   | SList [SStr "normalize"; SStr r] => SStr (normalize r)
+  | SList [SStr "checkout-name"; SStr r] => SStr (checkout_name r)
   | SList [SStr "location"; is_abs; parts] =>
       or_bad (do a <- as_bool is_abs; do ps <- as_list_of as_str parts; Some (SList (map SStr (location a ps))))
   | SList [SStr "checkout"; root; SStr tmpname; SStr normref] =>
